@@ -9,6 +9,7 @@ import M3d.Lemmas.DcBlock
 import M3d.Lemmas.MarchingGlue
 import M3d.Gen.McTable
 import M3d.Props.C01
+import M3d.Lemmas.C02ConjSide
 /-!
 # C02 — generated meshes bound exactly the sampled solid
 
@@ -857,6 +858,104 @@ example : ∀ t ∈ [Tf.Xf.translate ⟨1, 0, 0⟩, Tf.Xf.scale (2 : ℚ), Tf.Xf
   intro t ht
   simp only [List.mem_cons, List.not_mem_nil, or_false] at ht
   rcases ht with rfl | rfl | rfl <;> norm_num [Tf.Xf.Valid, Tf.M3.det]
+
+/-! ### The Conj members: on which side of the returned surface the sample points lie
+
+`MarchingSquaresConj` / `MarchingCubesConj` after the search: `mesh = mesh.Transform(joined.Inverse())`, then
+`if msSignedArea(mesh) < 0 { mesh = mesh.InvertNormals() }` (`mcSignedVolume` in 3-D) — C01's models
+`C01Search.conjMesh2 g o` / `conjMesh g o` (`g` = the map back, an invertible affine map `Aff2` / `Aff3`: `Translate`,
+`Scale`, `VecScale`, `Matrix2/3Transform`, their inverses and every `JoinedTransform` of them are of this form).  The
+lattice sample point `c` of the transformed space stands for the point `g c` of the original space
+(`conj2_label_is_solid`: the label of `c` is `s.Contains(g c)`).  `C02Conj.sideOf2 s q` is the un-normalised
+`s.Normal() · (q − s[0])`: positive = `q` is on the side the normal points to. -/
+
+open M3d.C01Search M3d.C02Conj in
+/-- **In the lattice space a marching-squares segment has the ends of its vertices' lattice edges on the sides its
+normal says.**  For the end `v` of a segment `s` and the point `v + t·e_k` of the lattice line through `v`,
+`Normal()·((v + t·e_k) − s[0]) = t · Normal()[k]` — for either end `v` of `s` and both axes.  With
+`ms_normal_picks_contained_end` (`Normal()[k] > 0` iff the lower end of the edge is the contained one; refinement
+moves vertices strictly inside their edges and keeps that sign) the excluded end of the edge is strictly on the normal
+side and the contained end strictly behind the segment. -/
+theorem ms_segment_side_of_edge_ends (s : (K × K) × (K × K)) (t : K) :
+    sideOf2 s (s.1.1 + t, s.1.2) = t * (-(s.2.2 - s.1.2)) ∧ sideOf2 s (s.1.1, s.1.2 + t) = t * (s.2.1 - s.1.1) ∧
+    sideOf2 s (s.2.1 + t, s.2.2) = t * (-(s.2.2 - s.1.2)) ∧ sideOf2 s (s.2.1, s.2.2 + t) = t * (s.2.1 - s.1.1) := by
+  simp only [sideOf2, ndot2, det2, sub2]
+  refine ⟨?_, ?_, ?_, ?_⟩ <;> ring
+
+open M3d.C01Search M3d.C02Conj in
+/-- **`MarchingSquaresConj`: every sample point keeps its side.**  For every invertible affine map back `g`
+(orientation-preserving or not), every closed lattice-space mesh `ss` whose normals face outward (`shoe2 ss < 0`:
+`msSignedArea > 0`) and wherever the signed area is measured from: the returned mesh is `ss.map (conjSeg g)` (mapped,
+and reversed iff `det g < 0`), and for EVERY segment `s` and point `q` of the lattice space, `g q` lies on the normal
+side of the returned segment iff `q` lies on the normal side of `s`, and behind it iff `q` lies behind `s`.  So the
+pre-image of an excluded lattice point is in front of, and that of a contained one behind, the returned segments at
+the vertices of its lattice edges (`ms_segment_side_of_edge_ends`): what the field `orient=1` of the `msj` kind demands. -/
+theorem conj2_lattice_points_keep_their_side (g : Aff2 K) (hd : g.det ≠ 0) (o : K × K)
+    (ss : List ((K × K) × (K × K))) (hclosed : ∀ v, pcnt false ss v = pcnt true ss v) (hout : shoe2 ss < 0) :
+    conjMesh2 g.apply o ss = ss.map (conjSeg g) ∧
+    ∀ s q, (0 < sideOf2 (conjSeg g s) (g.apply q) ↔ 0 < sideOf2 s q) ∧
+           (sideOf2 (conjSeg g s) (g.apply q) < 0 ↔ sideOf2 s q < 0) := by
+  refine ⟨conjMesh2_eq g hd o ss hclosed hout, fun s q => ?_⟩
+  rw [sideOf2_conjSeg]
+  exact pos_iff_of_abs_mul hd
+
+open M3d.C01Search M3d.C02Conj in
+/-- … and the signed area of the returned mesh (`msSignedArea` = −½ · `shoe2At`) is positive from wherever it is
+measured (the second clause of `orient=1`). -/
+theorem conj2_returned_area_positive (g : Aff2 K) (hd : g.det ≠ 0) (o o' : K × K)
+    (ss : List ((K × K) × (K × K))) (hclosed : ∀ v, pcnt false ss v = pcnt true ss v) (hout : shoe2 ss < 0) :
+    shoe2At o' (conjMesh2 g.apply o ss) < 0 :=
+  conjMesh2_shoe_neg g hd o o' ss hclosed hout
+
+open M3d.C01Search M3d.C02Conj in
+/-- **A member that loses the reversal puts every sample point on the wrong side** (seeded C02-15:
+`mesh.InvertNormals()` without the assignment — in model2d `InvertNormals` returns a new mesh): for `det g < 0` the
+bare mapped segment has `g q` strictly behind it iff `q` was strictly in FRONT of `s`, and conversely; the pre-image
+of every excluded lattice point next to the surface is on the inner side of the returned surface. -/
+theorem conj2_unreversed_swaps_sides (g : Aff2 K) (hd : g.det < 0) (s : (K × K) × (K × K)) (q : K × K) :
+    (sideOf2 (map2 g.apply s) (g.apply q) < 0 ↔ 0 < sideOf2 s q) ∧
+    (0 < sideOf2 (map2 g.apply s) (g.apply q) ↔ sideOf2 s q < 0) := by
+  rw [sideOf2_map]
+  constructor
+  · constructor
+    · intro h; by_contra hx
+      have := mul_nonneg_of_nonpos_of_nonpos hd.le (not_lt.1 hx); linarith
+    · exact fun h => mul_neg_of_neg_of_pos hd h
+  · constructor
+    · intro h; by_contra hx
+      have := mul_nonpos_of_nonpos_of_nonneg hd.le (not_lt.1 hx); linarith
+    · exact fun h => mul_pos_of_neg_of_neg hd h
+
+/-- Non-vacuity / the failing shape: the unit square `[0,1]²` meshed outward (clockwise), mirrored by
+`x ↦ −x` (`det = −1`).  `conjMesh2` returns the four segments mapped and reversed, with the excluded point `(−2, ½)`
+(image of `(2, ½)`) in front of the image of the right side; the bare map back has it behind. -/
+example :
+    let sq : List ((ℚ × ℚ) × (ℚ × ℚ)) := [((0, 0), (0, 1)), ((0, 1), (1, 1)), ((1, 1), (1, 0)), ((1, 0), (0, 0))]
+    let g : C01Search.Aff2 ℚ := ⟨-1, 0, 0, 1, 0, 0⟩
+    C01Search.shoe2 sq < 0 ∧ g.det ≠ 0 ∧
+    C01Search.conjMesh2 g.apply (0, 0) sq = sq.map (fun s => C01Search.flip2 (C01Search.map2 g.apply s)) ∧
+    0 < C02Conj.sideOf2 ((1, 1), (1, 0)) ((2 : ℚ), 1 / 2) ∧
+    0 < C02Conj.sideOf2 (C01Search.conjSeg g ((1, 1), (1, 0))) (g.apply (2, 1 / 2)) ∧
+    C02Conj.sideOf2 (C01Search.map2 g.apply ((1, 1), (1, 0))) (g.apply (2, 1 / 2)) < 0 := by
+  decide +kernel
+
+open M3d.C01Search M3d.C02Conj in
+/-- **`MarchingCubesConj`: every sample point keeps its side of every returned triangle's plane**, and the returned
+closed mesh has positive signed volume from wherever it is measured (`orient=1` of the `mcj` kind demands the second
+clause; the plane of ONE triangle at a vertex need not separate the ends of that vertex's lattice edge in 3-D, so the
+first clause is not evaluated per lattice point there). -/
+theorem conj_lattice_points_keep_their_side (g : Aff3 K) (hd : g.det ≠ 0) (o o' : K × K × K)
+    (ts : List ((K × K × K) × (K × K × K) × (K × K × K)))
+    (hclosed : ∀ p q, pecnt ts (p, q) = pecnt ts (q, p)) (hout : 0 < vol6 ts) :
+    conjMesh g.apply o ts = ts.map (conjTri g) ∧
+    (∀ t q, (0 < sideOf3 (conjTri g t) (g.apply q) ↔ 0 < sideOf3 t q) ∧
+            (sideOf3 (conjTri g t) (g.apply q) < 0 ↔ sideOf3 t q < 0)) ∧
+    0 < vol6At o' (conjMesh g.apply o ts) := by
+  refine ⟨conjMesh_eq g hd o ts hclosed hout, fun t q => ?_, conjMesh_vol_pos g hd o o' ts hclosed hout⟩
+  rw [sideOf3_conjTri]
+  exact pos_iff_of_abs_mul hd
+
+example : ∃ g : C01Search.Aff3 ℚ, g.det < 0 := ⟨⟨-1, 0, 0, 0, 1, 0, 0, 0, 1, 0, 0, 0⟩, by decide +kernel⟩
 
 /-- **The total margin of the coarse-to-fine filter covers one coarse cell.**  `extraSpace + 2·bigDelta·√3`
 (`s3` = `math.Sqrt(3)`, of which only `1 ≤ s3` is used) is at least `extraSpace + bigDelta`. -/
